@@ -1003,7 +1003,6 @@ func afVarSetByte(old AdaptationField, at, n int, data []byte, j int) byte {
 //@   ensures old(afFlag(af, 0x02)) && !afFits(old(*af), len(data)-(old(afTPDLen(af))-1)) ==> result != nil && afSame(af, old(*af))
 //@   ensures old(afFlag(af, 0x02)) && afFits(old(*af), len(data)-(old(afTPDLen(af))-1)) ==> result == nil
 //@   ensures old(afFlag(af, 0x02)) && result == nil ==> forall j in 0..188 :: af[j] == afVarSetByte(old(*af), old(afTPDStart(af)), old(afTPDLen(af))-1, data, j)
-//@   ensures result == nil ==> afCanonical(af)
 //@   modifies *af
 
 //@ func (af *AdaptationField) TransportPrivateData() (data []byte, err error)
@@ -1044,7 +1043,6 @@ func afVarSetByte(old AdaptationField, at, n int, data []byte, j int) byte {
 //@   ensures old(afFlag(af, 0x01)) && !afFits(old(*af), len(data)-(old(afExtLen(af))-1)) ==> result != nil && afSame(af, old(*af))
 //@   ensures old(afFlag(af, 0x01)) && afFits(old(*af), len(data)-(old(afExtLen(af))-1)) ==> result == nil
 //@   ensures old(afFlag(af, 0x01)) && result == nil ==> forall j in 0..188 :: af[j] == afVarSetByte(old(*af), old(afExtStart(af)), old(afExtLen(af))-1, data, j)
-//@   ensures result == nil ==> afCanonical(af)
 //@   modifies *af
 
 //@ func (af *AdaptationField) AdaptationFieldExtension() (data []byte, err error)
